@@ -212,8 +212,10 @@ def r1_add_var_hist(ctx, rid):
 
 
 def r2_history_index_is_state_index(ctx, rid):
-    f = ctx.repo.get_func(CG, "ComputeGraph.to_func")
-    selfn = f.self_name
+    from engine.inline import inlined
+    f0 = ctx.repo.get_func(CG, "ComputeGraph.to_func")
+    f = inlined(ctx, f0)             # the wiring of the history variables may live in a private helper of to_func
+    selfn = f0.self_name
     calls = [c for c in walk_shallow(f.node) if isinstance(c, ast.Call) and call_name(c) == "add_var_hist"]
     if len(calls) != 1:
         raise AnalysisError(f"{rid}: expected one add_var_hist call in to_func, found {len(calls)}")
@@ -334,16 +336,39 @@ def r2_history_index_is_state_index(ctx, rid):
                                         f"into ({TABLE}; it counts `{counted}`): two different delays of one variable can receive the same name, so both "
                                         f"delayed terms read the later one's history", {"template": fstring_template(tpl)},
                       label="history-variable name is unique per (var, delay)")
-    # the call site in _expr_to_str passes the variable the `past` call names
-    h = ctx.repo.get_func(CG, "ComputeGraph._expr_to_str")
+    # the call site in _expr_to_str passes the variable the `past` call names: past(x, d) -> history variable of (x, d).
+    # Roles: `var` derives from argument 0 of the expression, `delay` from argument 1 (through any locals / private helpers).
+    from engine.util import value_sources
+    h0 = ctx.repo.get_func(CG, "ComputeGraph._expr_to_str")
+    h = inlined(ctx, h0, keep=("_get_var_hist",))
     gc = [c for c in walk_shallow(h.node) if isinstance(c, ast.Call) and call_name(c) == "_get_var_hist"]
     if len(gc) != 1:
         raise AnalysisError(f"{rid}: expected one _get_var_hist call in _expr_to_str")
-    kwc = {k.arg: ast.unparse(k.value) for k in gc[0].keywords}
-    if kwc.get("var") == "var" and kwc.get("delay") == "delay":
-        ctx.ok(rid, h, gc[0], "past(x, d) is replaced by the history variable of (x, d)", nontrivial=False)
+    gparams = [p_ for p_ in g.params if p_ != g.self_name]
+    bound = {gparams[i]: a for i, a in enumerate(gc[0].args) if i < len(gparams)}
+    bound.update({k.arg: k.value for k in gc[0].keywords if k.arg})
+    if "var" not in bound or "delay" not in bound:
+        raise AnalysisError(f"{rid}: the _get_var_hist call in _expr_to_str does not pass var and delay")
+
+    def arg_indices(e):
+        seen_ = []
+        value_sources(ctx, h, e, visited=seen_)
+        out = set()
+        for x in seen_:
+            for n_ in ast.walk(x):
+                if isinstance(n_, ast.Subscript) and isinstance(n_.slice, ast.Constant) and isinstance(n_.slice.value, int) \
+                        and not isinstance(n_.slice.value, bool) and "args" in ast.unparse(n_.value):
+                    out.add(n_.slice.value)
+        return out
+    vi, di = arg_indices(bound["var"]), arg_indices(bound["delay"])
+    facts = {"var_from_argument": sorted(vi), "delay_from_argument": sorted(di)}
+    if not vi or not di:
+        raise AnalysisError(f"{rid}: cannot trace var/delay of the _get_var_hist call to arguments of the past(...) expression ({facts})")
+    if vi == {0} and di == {1}:
+        ctx.ok(rid, h0, gc[0], "past(x, d) is replaced by the history variable of (x, d)", facts, label="past(x, d) -> history of (x, d)")
     else:
-        ctx.violation(rid, h, gc[0], f"past() replacement requests the history of {kwc}")
+        ctx.violation(rid, h0, gc[0], f"past(x, d) replacement requests the history of (argument {sorted(vi)}, delay from argument {sorted(di)}) "
+                                      f"instead of (argument 0, argument 1)", facts, label="past(x, d) -> history of (x, d)")
 
 
 def _anc(n):
